@@ -165,7 +165,7 @@ def run(rep, tier, rng):
     m4 = F.gen_model(rng, 1, nrecs=4, null_prob=0.0)
     m4.pop("trailing", None)
     shp4, shx4 = refesri.encode_shp(m4), refesri.encode_shx(m4)
-    ccases = [[17] + C.pack_bytes(shp4) + [1] + C.pack_bytes(shx4) + [nrows] + C08.pair_case([], [("count",), ("it", -1)])[2:] for nrows in (0, 3, 4, 6, 9)]
+    ccases = [[17, -1] + C.pack_bytes(shp4) + [1] + C.pack_bytes(shx4) + [nrows] + C08.pair_case([], [("count",), ("it", -1)])[2:] for nrows in (0, 3, 4, 6, 9)]
     for c, r in zip(ccases, stages.correspondence(rep, "pairfile", dev, ccases, "pairfile(shape_count of the complete reader)", vm_sample=5)):
         if r[:1] == [0]:
             res = C08.parse_pair([0, 0, 0, 0] + r, 0, [("count",), ("it", -1)])
